@@ -1699,9 +1699,24 @@ def _cross_cases(ctx, reqs, pend):
         pl = _plane(r)
         row, col = np.array(pl['ori'][:3]), np.array(pl['ori'][3:])
         nrm = np.cross(row, col)
-        kind = ['stacks', 'pyramid'][i % 2]
+        kind = ['stacks', 'pyramid', 'seg_over_slide'][i % 3]
         sides = []
-        if kind == 'stacks':
+        if kind == 'seg_over_slide':
+            # a TILED_FULL segmentation (1-3 segments, other tile size) over a TILED_FULL slide image (1-3 optical paths) with the same total
+            # pixel matrix: frames of any channel of one side against frames of any channel of the other
+            trows, tcols = r.randint(2, 6), r.randint(2, 6)
+            for side in range(2):
+                geo = (trows, tcols, r.randint(1, 3), r.randint(1, 3))
+                t = _tiled_truth(r, pl, geo, flavour=r.choice(['wsi', 'wsi_nocount']) if side == 0 else r.choice(['seg_binary', 'seg_fractional', 'seg_labelmap']))
+                t.update(z=None, zsp=None, npl=1)
+                ds, _ = sources.slide_image(trows, tcols, geo[2], geo[3], tiled_full=True, origin=(t['x'], t['y'], 0.0), pixel_spacing=t['ps'],
+                                            orientation=t['ori'])
+                _apply_tiled_truth(ds, t)
+                frames = [(None, True, [t['x'], t['y'], 0.0], 0)]
+                for f in range(int(ds.NumberOfFrames)):
+                    frames.append((f + 1, False, [float(x) for x in _tiled_frame(t, f)[4]], 0))
+                sides.append((ds, t['ps'], frames))
+        elif kind == 'stacks':
             sl = _spacing(r)
             for side in range(2):
                 nfr = r.randint(2, 4)
